@@ -19,13 +19,17 @@ type searchLinker struct {
 	symbols  *linker.Symbols
 	Reporter reporter.Reporter
 	resolver fileSource
+
+	// files which are currently being linked, to detect import cycles
+	resolving map[string]bool
 }
 
 func newLinker(src fileSource, errs reporter.Reporter) *searchLinker {
 	return &searchLinker{
-		symbols:  &linker.Symbols{},
-		Reporter: errs,
-		resolver: src,
+		symbols:   &linker.Symbols{},
+		Reporter:  errs,
+		resolver:  src,
+		resolving: map[string]bool{},
 	}
 }
 
@@ -59,11 +63,16 @@ func (ll *searchLinker) resolveAll(ctx context.Context, filenames []string) (lin
 
 func (ll *searchLinker) resolveFile(ctx context.Context, filename string) (linker.File, error) {
 	ctx = log.WithField(ctx, "askFilename", filename)
+	if ll.resolving[filename] {
+		return nil, fmt.Errorf("circular import: %s imports itself through its dependencies", filename)
+	}
 	result, err := ll.resolver.findFileByPath(ctx, filename)
 	if err != nil {
 		return nil, fmt.Errorf("findFileByPath: %w", err)
 	}
 
+	ll.resolving[filename] = true
+	defer delete(ll.resolving, filename)
 	return ll.linkResult(ctx, result)
 }
 
